@@ -1,13 +1,15 @@
 // Package vpool is the adversarial model of sync.Pool used in every check build: a pool may hand an object
 // to another goroutine the instant it was Put, so whatever the putter still reads from it afterwards is
 // garbage. Put therefore overwrites byte storage ([]byte, *[]byte, *bytes.Buffer) with a poison pattern
-// before pooling it. Code that honours the sync.Pool contract (no use after Put) cannot observe this; a
+// before pooling it, and re-targets a *bufio.Reader / *bufio.Writer (to an endless poison source / a sink). Code that honours the sync.Pool contract (no use after Put) cannot observe this; a
 // use-after-Put, which the real pool would expose only under a particular interleaving of two goroutines,
 // becomes a deterministic corruption that the byte-exact oracles of the checks report in every execution.
 package vpool
 
 import (
+	"bufio"
 	"bytes"
+	"io"
 	"sync"
 )
 
@@ -63,5 +65,24 @@ func Scribble(v any) {
 		if t != nil {
 			fill(t.Bytes())
 		}
+	case *bufio.Reader:
+		// whoever still reads through a released reader reads what its next owner put there: poison for ever
+		if t != nil {
+			t.Reset(poisonSource{})
+		}
+	case *bufio.Writer:
+		// whatever is still written through a released writer goes to its next owner's destination: lost here
+		if t != nil {
+			t.Reset(io.Discard)
+		}
 	}
+}
+
+type poisonSource struct{}
+
+func (poisonSource) Read(b []byte) (int, error) {
+	for i := range b {
+		b[i] = Poison
+	}
+	return len(b), nil
 }
